@@ -390,3 +390,8 @@ WITNESSES = [
 WITNESSES += [
     Witness("C18.W11", "menpo/feature/features.py", "normalize_var", "@ndfeature", "@imgfeature", rule="C18.R1", construct="normalize_var", note="seeded change R4-C18-B"),
 ]
+
+WITNESSES += [
+    Witness("C18.W12", "menpo/feature/features.py", "normalize_std", "error_on_divide_by_zero=error_on_divide_by_zero", "error_on_divide_by_zero=True",
+            rule="C18.G4", construct="normalize_std", note="generic: forwarded option replaced by a constant"),
+]
